@@ -799,14 +799,17 @@ def rule_defined_eval(chk, prefix="C08.macro/defined"):
         ("IS_ENABLED(FOO) with #define IS_ENABLED(f) (defined f) from a header", [idt("IS_ENABLED"), tok("LeftParen"), idt("FOO"), tok("RightParen")], [X, wrap], None),
         ("HAS(X) with #define HAS(f) defined(f) from a header", [idt("HAS"), tok("LeftParen"), idt("X"), tok("RightParen")], [X, wrap2], None),
         ("HAS_X with #define HAS_X defined(X) from a header", [idt("HAS_X")], [X, obj], None),
+        # outside #if / #elif (apply_defined = false) `defined` is an ordinary word; X is still replaced
+        ("text: defined X", [idt("defined"), tok("Whitespace"), idt("X")], [X], [("Id", None), ("LiteralInt", 1)]),
+        ("text: defined(Q)", [idt("defined"), tok("LeftParen"), idt("Q"), tok("RightParen")], [X], [("Id", None), ("LeftParen", None), ("Id", None), ("RightParen", None)]),
     ]
-    bad_val = bad_abort = None
+    bad_val = bad_abort = bad_text = None
     n = 0
     for name, toks, macros, want in cases:
         ip = I.Interp(f, max_depth=24)
         ip.max_loop = 512
         try:
-            r = ip.apply(am, [list(toks), list(macros), True, I.Opaque("source manager")])
+            r = ip.apply(am, [list(toks), list(macros), not name.startswith("text: "), I.Opaque("source manager")])
         except I.Unknown as e:
             if "panicking" in str(e) or "overflow" in str(e) or "abort" in str(e):
                 bad_abort = bad_abort or "`#if %s` aborts in the preprocessor (%s): compile() panics instead of reporting the condition" % (name, str(e)[:80])
@@ -826,9 +829,12 @@ def rule_defined_eval(chk, prefix="C08.macro/defined"):
                     continue
                 p0 = k.fields.get("0")
                 got.append((k.variant, p0 if isinstance(p0, int) else None))
-        if got != want and not bad_val:
+        if got != want and name.startswith("text: "):
+            bad_text = bad_text or "outside a condition, `%s` is rewritten to %s, must be %s (`defined` is an operator only in #if / #elif)" % (name[6:], got, want)
+        elif got != want and not bad_val:
             bad_val = "`#if %s` is rewritten to %s, must be %s" % (name, got, want)
     chk.ob(prefix + "/value", bad_val is None, bad_val or "defined X / defined(X) become 1 or 0 by whether X is a macro", where(am))
+    chk.ob(prefix + "/only-in-conditions", bad_text is None, bad_text or "`defined` is ordinary text when apply_defined is false", where(am))
     chk.ob(prefix + "/from-macro-no-abort", bad_abort is None, bad_abort or "a `defined` produced by a macro from another file does not abort", where(am))
     return True
 
